@@ -20,6 +20,10 @@ def families(tier, seed):
                 # a step size that needs more than six decimals: the generated hist(t*dt - d) must carry it exactly
                 out.append(dict(tag=f"{tag}/field-small-dt/{solver}", features=dict(feats, solver=solver, small_dt=True), kind="dde_field", model=model,
                                 solver=solver, seed=seed, dt=6.25e-5))
+            if solver == "euler" and tag.split("-")[0] in ("H1", "H3", "H4", "H2"):
+                # the documented two-stage route: apply() with its defaults, then get_run_func on the intermediate representation
+                out.append(dict(tag=f"{tag}/field-two-stage/{solver}", features=dict(feats, solver=solver, two_stage=True), kind="dde_field", model=model,
+                                solver=solver, seed=seed, two_stage=True))
             if feats.get("edges"):
                 out.append(dict(tag=f"{tag}/field-vec/{solver}", features=dict(feats, solver=solver, vec=True), kind="dde_field", model=model,
                                 solver=solver, seed=seed, vec=True))
